@@ -24,7 +24,8 @@ struct Profile {
     p_tie: f64,       // (discipline = false) probability of clock advance 0
     w: BTreeMap<String, f64>, // operation weights
     p_redundant: f64, // probability that a place/cancel/modify targets an arbitrary id
-    p_offgrid: f64,   // probability that a creation / modify price is off the grid
+    p_offgrid: f64,   // probability that a creation price is off the grid
+    p_offgrid_modify: f64, // probability that a modify price is off the grid
     p_market: f64,
     trading0: Vec<bool>,
     audit_every: usize,
@@ -48,6 +49,7 @@ fn profile(v: &Value) -> Profile {
         w,
         p_redundant: f("p_redundant", 0.1),
         p_offgrid: f("p_offgrid", 0.0),
+        p_offgrid_modify: f("p_offgrid_modify", 0.0),
         p_market: f("p_market", 0.15),
         trading0: v.get("trading0").and_then(|x| x.as_array()).map(|a| a.iter().map(|x| x.as_bool().unwrap()).collect()).unwrap_or(vec![true]),
         audit_every: f("audit_every", 50.0) as usize,
@@ -79,10 +81,10 @@ struct Ctx {
     n_trades: usize,
 }
 
-fn price(rng: &mut R, p: &Profile, c: &Ctx) -> i64 {
+fn price(rng: &mut R, p: &Profile, c: &Ctx, p_off: f64) -> i64 {
     let k = rng.gen_range(0..p.nprices);
     let mut x = (c.base + k) * c.tick;
-    if c.tick > 1 && rng.gen::<f64>() < p.p_offgrid {
+    if c.tick > 1 && rng.gen::<f64>() < p_off {
         x += rng.gen_range(1..c.tick);
     }
     x as i64
@@ -105,7 +107,7 @@ fn target(rng: &mut R, p: &Profile, c: &Ctx, want: &str) -> Option<usize> {
 }
 
 fn mod_args(rng: &mut R, p: &Profile, c: &Ctx, id: usize) -> (i64, i64) {
-    let np = if rng.gen::<f64>() < 0.5 { -1 } else { price(rng, p, c) };
+    let np = if rng.gen::<f64>() < 0.5 { -1 } else { price(rng, p, c, p.p_offgrid_modify) };
     let cur = c.vols[id].max(1);
     let nv = match rng.gen_range(0..4) {
         0 => -1,
@@ -169,7 +171,7 @@ fn main() {
                 "cap" | "create" => {
                     let side = if rng.gen::<bool>() { "B" } else { "A" };
                     let mkt = rng.gen::<f64>() < p.p_market;
-                    let pr = if mkt { -1 } else { price(&mut rng, &p, &c) };
+                    let pr = if mkt { -1 } else { price(&mut rng, &p, &c, p.p_offgrid) };
                     Some(json!({"op": op, "dt": dt, "side": side, "vol": rng.gen_range(1..=p.vmax),
                         "tr": rng.gen_range(0..20u32), "price": pr}))
                 }
